@@ -188,5 +188,26 @@ def isDisconnectedS (c : Chan) : Bool := c.recvCount == 0   -- sender's view
 def isDisconnectedR (c : Chan) : Bool := c.sendCount == 0   -- receiver's view
 def isTerminated (c : Chan) : Bool := c.sendCount == 0 && c.queue.length == 0
 
+/-! Equation lemmas are realised here, once, so that importing modules never generate clashing copies. -/
+section realise
+variable (c : Chan) (m : Msg) (s : SigId) (r : Role) (f : SigId → Msg) (b : Bool)
+example : c.nextSend = c.nextSend := by unfold nextSend; rfl
+example : c.nextRecv = c.nextRecv := by unfold nextRecv; rfl
+example : c.sendPre m = c.sendPre m := by unfold sendPre; rfl
+example : c.sendCS m s = c.sendCS m s := by unfold sendCS; rfl
+example : c.recvPre f b b = c.recvPre f b b := by unfold recvPre; rfl
+example : c.recvCS f b b s = c.recvCS f b b s := by unfold recvCS; rfl
+example : c.cancel r s = c.cancel r s := by unfold cancel; rfl
+example : c.popAllSenders = c.popAllSenders := by unfold popAllSenders; rfl
+example : c.drainCS = c.drainCS := by unfold drainCS; rfl
+example : c.closeCS = c.closeCS := by unfold closeCS; rfl
+example : c.cloneCS r = c.cloneCS r := by unfold cloneCS; rfl
+example : c.dropCS r = c.dropCS r := by unfold dropCS; rfl
+example : c.hasRoom = c.hasRoom := by unfold hasRoom; rfl
+example : c.isFull = c.isFull := by unfold isFull; rfl
+example : c.sendPre m = c.sendPre m := by simp only [sendPre]
+example : c.recvPre f b b = c.recvPre f b b := by simp only [recvPre]
+end realise
+
 end Chan
 end Kanal
